@@ -42,3 +42,18 @@ package utility
 //@   option trusted
 //@   ensures [shape] (result1 == nil) == (result0 != nil)
 //@   modifies nothing
+
+// Decimal rescaling between the 18-decimal internal unit and a token's own decimals (C18's conversion applied
+// to an integer): abstract functions of value and decimals; results are fresh big integers.
+//@ spec abstract fn fmt20(n Int, d int64) Int
+//@ spec abstract fn fmtRocket(n Int, d int64) Int
+
+//@ func FormatDecimalForERC20
+//@   option trusted
+//@   ensures result != nil && fresh(result) && (number != nil ==> big(result) == fmt20(old(big(number)), decimal))
+//@   modifies nothing
+
+//@ func FormatDecimalForRocket
+//@   option trusted
+//@   ensures result != nil && fresh(result) && (number != nil ==> big(result) == fmtRocket(old(big(number)), decimal))
+//@   modifies nothing
